@@ -204,6 +204,8 @@ func C18_Order() {
 		{"--disasm", "p.bcl", "-s"},
 		{"-r", "p.bcl"},
 		{"-d", "-t", "-s", "p.bcl"},
+		{"-d", "-t", "p.bcl", "-s"},
+		{"-t", "-s", "p.bcl", "-d"},
 	}
 	a := base[verif.Choice("args", len(base))]
 	// a permutation by two swaps
@@ -219,8 +221,8 @@ func C18_Order() {
 	verif.Observe("status", s1)
 	verif.Assert(s1 == s2 && o1 == o2 && e1 == e2, "flag order does not change the outcome")
 	// clustering
-	if len(a) == 3 && len(a[0]) == 2 && len(a[1]) == 2 {
-		c := []string{a[0] + a[1][1:], a[2]}
+	if len(a) >= 3 && len(a[0]) == 2 && len(a[1]) == 2 && a[0][1] != '-' && a[1][1] != '-' {
+		c := append([]string{a[0] + a[1][1:]}, a[2:]...)
 		s3, o3, e3, _, _ := verif.RunCmd(c, "", names, contents)
 		verif.Assert(s1 == s3 && o1 == o3 && e1 == e3, "a cluster equals its expansion")
 		verif.Reach("cluster")
@@ -289,3 +291,26 @@ func C18_DumpLoad() {
 }
 
 var _ = fmt.Sprint
+
+// C18_Big: CONCRETE INSTANCE - a program whose bytecode exceeds the 4096-byte
+// read buffer, dumped and loaded back by the tool.
+func C18_Big() {
+	src := ""
+	for i := 0; i < 700; i++ {
+		src += "print " + itoa(1000+i) + " + " + itoa(i) + "\n"
+	}
+	s1, o1, e1, names, contents := verif.RunCmd([]string{"--bdump", "p.bcl"}, "", []string{"p.bcl"}, []string{src})
+	s2, o2, e2, _, _ := verif.RunCmd([]string{"--bload", "p.bcb"}, "", names, contents)
+	verif.Observe("status", s1)
+	verif.Assert(s1 == 0 && s2 == 0, "both runs succeed")
+	verif.Assert(o1 == o2 && e1 == e2, "same output from the bytecode file")
+	verif.Reach("compared")
+}
+
+// C18_DumpError: an error writing the bytecode file is reported with status 1.
+func C18_DumpError() {
+	status, _, stderr, _, _ := verif.RunCmd([]string{"--bdump=/dev/full", "p.bcl"}, "", []string{"p.bcl"}, []string{"print 1\n"})
+	verif.Observe("status", status)
+	verif.Assert(status == 1 && len(stderr) > 0, "a failed dump exits with status 1 and a message")
+	verif.Reach("compared")
+}
